@@ -9,8 +9,8 @@ using lab::Pipeline;
 using model::Obj;
 using vp::Src;
 
-enum FaultKind { F_NONE = 0, F_READ_THROWS = 1, F_CLOSE_THROWS = 2, F_TRUNCATED = 3, F_BAD_BLOB = 4 };
-static const char* const FAULT_NAME[] = {"none", "decompressor-read-throws", "decompressor-close-throws", "input-truncated", "pbf-blob-corrupted"};
+enum FaultKind { F_NONE = 0, F_READ_THROWS = 1, F_CLOSE_THROWS = 2, F_TRUNCATED = 3, F_BAD_BLOB = 4, F_CORRUPT = 5 };
+static const char* const FAULT_NAME[] = {"none", "decompressor-read-throws", "decompressor-close-throws", "input-truncated", "pbf-blob-corrupted", "input-corrupted"};
 
 struct Frame {
     std::string header, blob;
@@ -97,8 +97,8 @@ static void prop(Src& s) {
     VP_CHECK(ref_error.empty(), "reference-decode-failed", "reference decode of the intact file failed: " << ref_error);
 
     // ---- the fault
-    int kind = static_cast<int>(s.weighted({2, 4, 2, 2, 2}));
-    const bool from_file = (kind == F_NONE || kind == F_TRUNCATED || kind == F_BAD_BLOB) && s.chance(1, 3);  // real file: no wrapping decompressor
+    int kind = static_cast<int>(s.weighted({2, 4, 2, 2, 2, 3}));
+    const bool from_file = (kind == F_NONE || kind == F_TRUNCATED || kind == F_BAD_BLOB || kind == F_CORRUPT) && s.chance(1, 3);  // real file: no wrapping decompressor
     size_t piece = s.chance(1, 4) ? 0 : 1 + s.draw(s.boolean() ? 40 : 400);
     long total_reads = piece == 0 ? 1 : static_cast<long>((bytes.size() + piece - 1) / piece);
     long fault_read = -1;
@@ -127,6 +127,13 @@ static void prop(Src& s) {
     if (kind == F_READ_THROWS) {
         fault_read = static_cast<long>(s.draw(static_cast<uint64_t>(total_reads) + 1));
         fault_text += " (read " + std::to_string(fault_read) + " of " + std::to_string(total_reads) + ")";
+    }
+    if (kind == F_CORRUPT && !bytes.empty()) {
+        // garbage in the first part of the input: the parser usually fails while most of the input is still to come
+        size_t pos = s.draw(std::max<size_t>(1, bytes.size() / (1 + s.draw(4))));
+        size_t n = 1 + s.draw(4);
+        for (size_t i = 0; i < n && pos + i < bytes.size(); ++i) bytes[pos + i] = static_cast<char>(s.boolean() ? 0xff : s.draw(256));
+        fault_text += " (" + std::to_string(n) + " bytes at " + std::to_string(pos) + " of " + std::to_string(bytes.size()) + ")";
     }
     if (kind == F_TRUNCATED && !bytes.empty()) {
         bytes.resize(s.draw(bytes.size()));
@@ -262,7 +269,7 @@ static void prop(Src& s) {
     if (!ob.problems.empty()) vp::fail(ob.problems[0].first, ob.problems[0].second + " | " + outcome + " | " + what);
 
     // delivered objects: always a prefix of what the intact file contains (nothing invented, nothing reordered, nothing after a gap)
-    if (kind != F_TRUNCATED && kind != F_BAD_BLOB) {
+    if (kind != F_TRUNCATED && kind != F_BAD_BLOB && kind != F_CORRUPT) {
         bool prefix = ob.objs.size() <= ref.size();
         for (size_t i = 0; prefix && i < ob.objs.size(); ++i) prefix = ob.objs[i] == ref[i];
         VP_CHECK(prefix, "delivered-not-a-prefix", "the objects delivered before the fault are not a prefix of the file's objects (" << ob.objs.size() << " delivered, file has " << ref.size() << ") | " << outcome << " | " << what);
@@ -393,7 +400,7 @@ static void prop_all(Src& s) {
 }
 
 VP_MAIN(prop_all, "fault scenarios: file (harness encoders, 4 formats, 0..60 objects, PBF with several blobs) x fault {none, the j-th decompressor read throws (every j), decompressor close throws, input "
-              "truncated at a byte offset, n-th PBF blob replaced by garbage zlib data or by a block with a string index out of range (fails inside a pool worker)} x consumer script {header() or "
+              "truncated at a byte offset, bytes near the start overwritten with garbage (parser fails while most input is still to come), n-th PBF blob replaced by garbage zlib data or by a block with a string index out of range (fails inside a pool worker)} x consumer script {header() or "
               "not, k reads or read to the end, close() / destructor only / close() twice} x pipeline configuration (pool 1..32, queue sizes 2..20, PBF in pool or parser thread, seeded schedule "
               "perturbation, CPU set) x input piece size x memory or real file. Oracle: every call returns (watchdog); a fault that fired reaches a caller that reads to the end as the injected "
               "exception; after a report read() keeps failing and delivers nothing; delivered objects are a prefix of the file's objects; threads, file descriptors and the decompressor object are "
